@@ -9,7 +9,7 @@ THEOREMS = ['C16_finddomain', 'C16_fd_entries', 'C16_finddomain_property', 'C16_
             'C16_ip4_matchnet', 'C16_ip6_matchnet', 'C16_ipbl4', 'C16_ipbl6', 'C16_ipbl_bad_size', 'C16_ipbl_records',
             'C16_ipbl_orig_lazy', 'C16_loadlist', 'C16_lloadfile_raw', 'C16_lloadfile_mode1', 'C16_lloadfile_mode2', 'C16_lloadfile_mode3',
             'C16_loadoneliner', 'C16_line_entry_cases', 'C16_loadint', 'C16_loadint_orig_silent']
-OPS = ('fd', 'ff', 'ad', 'a4', 'a6', 'b4', 'b6', 'bf', 'c0', 'c1', 'c2', 'c3', 'c4', 'c5', 'c6')
+OPS = ('fd', 'ff', 'ad', 'a4', 'a6', 'b4', 'b6', 'bf', 'c0', 'c1', 'c2', 'c3', 'c4', 'c5', 'c6', 'c7')
 ENGINES = [dict(name='control', c_sources=['control_h.c'], extract='Extract/Extract_control.v', driver='control_driver.ml',
                 accepts=lambda c: c.split(' ', 1)[0] in OPS)]
 RULE = ('cases = (a) domain lists over the alphabet {name characters, dot, blank, tab, #, backslash, LF, CR, NUL, 8-bit} with 0-8 lines, '
@@ -259,6 +259,15 @@ def gen_cases(engine, rng, tier):
         out.append('%s %s' % (rng.choice(['c4', 'c4', 'c4', 'c3', 'c3', 'c2', 'c1', 'c0', 'c6']), R.hx(_txt_file(rng))))
     for _ in range(300 * mult):
         out.append('c5 %s' % R.hx(_int_file(rng)))
+    for _ in range(400 * mult):
+        c = _txt_file(rng)
+        k = rng.random()
+        if k < 0.2: rej = b''
+        else:
+            firsts = [l[:1] for l in c.replace(b'\0', b'\n').split(b'\n') if l[:1] and l[:1] not in b' \t#']
+            rej = b''.join(rng.choice(firsts) if firsts and rng.random() < 0.6 else bytes([rng.choice([1, 2, 3, 5, 9, 97, 65, 48])])
+                           for _ in range(rng.choice([1, 1, 2, 3])))
+        out.append('c7 %s %s' % (R.hx(c), R.hx(rej)))
     return out
 
 
